@@ -15,9 +15,11 @@
 //!           one logical update that succeeds gives the same state, and JSON and TOML renderings agree on success.
 //! stateright runs the same model (same op table, real Settings) and must find the same number of distinct states.
 //!
-//! Mutants caught (tools/mutant_run.sh C <diff> C25 quick):
-//!   /verif/mutants/C25-merge-replaces-depth1.diff (merge_json replaces instead of merging below the top level)
-//!   /verif/mutants/C25-set-value-not-atomic.diff  (set_value stores the unvalidated value before validation)
+//! Mutants caught (quick tier, patched scratch worktree, /verif/target-mut-C):
+//!   /verif/mutants/C25-merge-replaces-depth1.diff     merge_json replaces instead of merging below the top level
+//!       -> "merge-not-yielded :: leaf builder.… ok=[with_value,set_value] failed=[with_json,update_from_str(json),with_toml,update_from_str(toml)]"
+//!   /verif/mutants/C25-set-value-validates-late.diff  set_value assigns the new settings before validating them
+//!       -> "not-atomic set_value :: leaf …"
 
 use c2pa::Settings;
 use kit::{ev, par, Run};
